@@ -827,3 +827,52 @@ class Sampler:
             except RecursionError:
                 pass
         return out
+
+
+def literal_zoo():
+    """Literals whose spelling needs escaping or whose matching is locale / case sensitive:
+    (tag, expr, alphabet of characters worth trying)."""
+    return [
+        ('newline', ('str', 'a\nb'), 'ab\n'),
+        ('tab-cr', ('str', '\t\r'), '\t\ra'),
+        ('dquote', ('str', 'a"b'), 'ab"'),
+        ('squote', ('str', "a'b"), "ab'"),
+        ('both-quotes', ('str', '\'"'), '\'"a'),
+        ('backslash', ('str', 'a\\b'), 'ab\\'),
+        ('backtick', ('str', '`a`'), '`a'),
+        ('slash', ('str', '/a/'), '/a'),
+        ('hash', ('str', '#a'), '#a'),
+        ('brackets', ('str', '[]{}()'), '[]{}()'),
+        ('unicode', ('str', 'é€'), 'é€e'),
+        ('astral', ('str', '😀a'), '😀a'),
+        ('icase-punct', ('istr', 'a+b'), 'ab+AB'),
+        ('icase-unicode', ('istr', 'é'), 'éÉe'),
+        ('icase-sharp-s', ('istr', 'ss'), 'sSß'),
+        ('regex-slash', ('re', 'a/b', False), 'ab/'),
+        ('regex-escaped-slash', ('re', 'a\\/b', False), 'ab/'),
+        ('regex-class-slash', ('re', '[/a]+', False), '/ab'),
+        ('regex-backslash-d', ('re', '\\d+', False), '0a1'),
+        ('regex-inline-flag', ('re', '(?i)ab', False), 'abAB'),
+        ('regex-dot', ('re', 'a.b', False), 'ab\n'),
+        ('regex-dotall', ('re', '(?s)a.b', False), 'ab\n'),
+        ('regex-multiline-anchor', ('re', '(?m)^a', False), 'a\nb'),
+        ('regex-alternation', ('re', 'a|ab', False), 'ab'),
+        ('regex-icase-class', ('re', '[a-c]+', True), 'aBcd'),
+        ('regex-quote', ('re', '"[^"]*"', False), '"a'),
+        ('regex-unicode', ('re', '[é€]+', False), 'é€e'),
+        ('regex-backtick', ('re', '`+', False), '`a'),
+    ]
+
+
+def bytes_zoo():
+    return [
+        ('nul', ('bstr', b'\x00a'), '\x00a'),
+        ('high', ('bstr', b'\xff\x80'), '\xff\x80a'),
+        ('quotes', ('bstr', b'"\''), '"\'a'),
+        ('backslash', ('bstr', b'a\\'), 'a\\'),
+        ('icase', ('bistr', b'aB'), 'abAB'),
+        ('byte-0', ('byte', 0), '\x00a'),
+        ('byte-ff', ('byte', 255), '\xffa'),
+        ('regex-high', ('bre', '[\\x80-\\xff]+', False), '\x80\xffa'),
+        ('regex-dot', ('bre', 'a.', False), 'a\n\xff'),
+    ]
